@@ -17,7 +17,7 @@ LEVEL_TEXT = ('every combination of payload shape (symlinks to outside files/dir
 LEVEL_NOTE = 'one injected error per run (pairs of errors are not explored for the purging commands); trusted: the shim\'s entry-path resolution (realpath of the parent + basename); running as root, so mode-000 directories do not block deletion'
 RULE = ('payload {link->outside file abs/rel, link->outside dir abs/rel, dangling, tree with outside links at depth 1,2,3, tree with mode-000 child dir, plain file} x info name '
         '{plain, x.trashinfo.trashinfo, name with newline} x reach {direct home, XDG_DATA_HOME symlink, .Trash-uid symlink, Trash/info itself a symlink with a decoy files/ beside its target, $HOME below a directory called info, --trash-dir LINK/../dir with a look-alike where a lexical collapse would point} x command {empty, empty 0, rm *, rm exact} x orphan-symlink '
-        'payload {yes,no}; plus {file, tree, link} x reach x command with an info file named .trashinfo / ..trashinfo / ...trashinfo and a file beside files/ and info/; second stage: for every payload x reach {direct, .Trash-uid symlink, info symlink; thorough + XDG symlink} x command {empty, empty 0, rm *; thorough + rm exact} every operation of the fault-free trace answers with every errno it can return, once and (mutating calls) persistently - containment oracle only; non-trivial = at least one deletion syscall was issued; distinct = (payload, name, reach, command, outcome)')
+        'payload {yes,no}; plus {file, tree, link} x reach x command with an info file named .trashinfo / ..trashinfo / ...trashinfo and a file beside files/ and info/; every payload x {direct, XDG symlink} x 4 commands again with geteuid() = 1000; second stage: for every payload x reach {direct, .Trash-uid symlink, info symlink; thorough + XDG symlink} x command {empty, empty 0, rm *; thorough + rm exact} every operation of the fault-free trace answers with every errno it can return, once and (mutating calls) persistently - containment oracle only; non-trivial = at least one deletion syscall was issued; distinct = (payload, name, reach, command, outcome)')
 PAYLOADS = ['lf-abs', 'lf-rel', 'ld-abs', 'ld-rel', 'dang', 'tree1', 'tree2', 'tree3', 'tree000', 'file']
 NAMES = ['plain', 'dbl', 'newline']
 STRAYS = ['.trashinfo', '..trashinfo', '...trashinfo']
@@ -35,6 +35,9 @@ def cases(tier):
     # an info file whose name is nothing but the suffix, or '.' / '..' + suffix: its "payload" would be files/, files/. or files/.. (the trash directory)
     out += [{'pl': p, 'nm': 'plain', 'reach': r, 'cmd': c, 'orphan': 0, 'stray': st} for st in STRAYS for c in CMDS for r in REACH for p in ('file', 'tree1', 'ld-abs')
             if not (r == 'tdopt-dotdot' and c.startswith('rm'))]
+    # the same as an unprivileged user (the code may take other branches when geteuid() != 0; the cell still runs as root)
+    out += [{'pl': p, 'nm': 'plain', 'reach': r, 'cmd': c, 'orphan': 1, 'uid': 1000} for c in ('empty', 'empty0', 'rm-star', 'empty-v') for r in ('direct', 'xdg-link')
+            for p in PAYLOADS]
     return out
 
 
@@ -48,7 +51,7 @@ def fault_stage(tier, cases_, outs):
     pls, reaches, cmds = FAULT_BASE['thorough' if tier == 'thorough' else 'quick']
     out = []
     for c, o in zip(cases_, outs):
-        if c['nm'] == 'plain' and c['orphan'] == 1 and c['pl'] in pls and c['reach'] in reaches and c['cmd'] in cmds and o.get('ops'):
+        if c['nm'] == 'plain' and c['orphan'] == 1 and not c.get('uid') and not c.get('stray') and c['pl'] in pls and c['reach'] in reaches and c['cmd'] in cmds and o.get('ops'):
             for f in faults.single_faults(o['ops'], sticky=True):
                 out.append(dict({k: c[k] for k in ('pl', 'nm', 'reach', 'cmd', 'orphan')}, faults=[f]))
     return out
@@ -85,7 +88,7 @@ def add_payload(W, path, pl, rel_out):
 
 def run_case(c):
     env = {'HOME': '/home/u'}
-    W = scen.base_world(mounts=['/', '/mnt/v1'], cwd='/')
+    W = scen.base_world(mounts=['/', '/mnt/v1'], cwd='/', uid=c.get('uid', 0))
     W.file('/outside/file', 'precious file\n', mode=0o444).dir('/outside/dir', mode=0o755).file('/outside/dir/inner', 'precious inner\n')
     W.dir('/outside/dir/sub').file('/outside/dir/sub/deep', 'deep\n')
     if c['reach'] == 'direct':
@@ -151,7 +154,7 @@ def run_case(c):
         after = sb.snapshot()
     zones = [phys + '/files', infodir]
     detail = {'argv': argv, 'exit': r.exit, 'err': r.err[-300:], 'trash': phys}
-    dims = '%s|%s|%s|%s|o%d%s' % (c['pl'], c['nm'], c['reach'], c['cmd'], c['orphan'], '|stray=' + c['stray'] if c.get('stray') else '')
+    dims = '%s|%s|%s|%s|o%d%s%s' % (c['pl'], c['nm'], c['reach'], c['cmd'], c['orphan'], '|stray=' + c['stray'] if c.get('stray') else '', '|uid1000' if c.get('uid') else '')
     frame = world.diff(before, after, dir_mtime=False, ignore=zones)
     muts = [t for t in r.trace if cell.is_mutating(t) and cell.ok_of(t)]
     outside = [t[:4] for t in muts if not all(any(e.startswith(z + '/') for z in zones) for e in (t[3] or t[2]))]
